@@ -28,9 +28,11 @@ import (
 	"os/exec"
 	"os/signal"
 	"path/filepath"
+	"reflect"
 	"sort"
 	"strconv"
 	"strings"
+	"sync"
 	"sync/atomic"
 	"syscall"
 	"testing"
@@ -78,6 +80,9 @@ type c20Case struct {
 	Ops    []c20Op `json:"ops"`
 	KillAt int     `json:"kill_at"` // -1 = never; else SIGKILL after the child announced "start KillAt" ...
 	KillUs int     `json:"kill_us"` // ... plus this many microseconds
+	// XDev: run the child with TMPDIR on another file system than the assets directory (when one is
+	// available), so that a store that stages its temporary file in os.TempDir() cannot rename it
+	XDev bool `json:"xdev,omitempty"`
 }
 
 // ---- content: a deterministic function of the index ---------------------------------------------
@@ -95,7 +100,7 @@ func c20Decoys(idx, kb int) []*pb.TLSDecoySpec {
 	hostLen := 0
 	if kb > 0 {
 		hostLen = 200 + (idx+7)%54 // 200..253 byte host names
-		n = kb * 1024 / (hostLen + 14)
+		n = kb * 1024 / (hostLen + 30)
 	}
 	out := make([]*pb.TLSDecoySpec, 0, n)
 	for k := 0; k < n; k++ {
@@ -103,13 +108,18 @@ func c20Decoys(idx, kb int) []*pb.TLSDecoySpec {
 		if hostLen > 0 {
 			host = c20Pad(fmt.Sprintf("i%dk%d", idx, k), hostLen)
 		}
+		// Time-out and window are always at or above the floor GetDecoy enforces, so that sampling
+		// GetDecoy never writes into the configuration.
 		d := &pb.TLSDecoySpec{
 			Hostname: proto.String(host),
-			Ipv4Addr: proto.Uint32(0xC6336400 ^ uint32(idx+1)<<8 ^ uint32(k)), // 198.51.100.0 varied
+			Timeout:  proto.Uint32(uint32(20000 + (idx+1)%1000 + k%7)),
+			Tcpwin:   proto.Uint32(uint32(14400 + k%1000)),
 		}
-		if k%3 == 1 {
-			d.Timeout = proto.Uint32(uint32(20000 + (idx+1)%1000))
-			d.Tcpwin = proto.Uint32(uint32(14400 + k%1000))
+		if k%5 != 3 { // every fifth decoy is IPv6-only
+			d.Ipv4Addr = proto.Uint32(0xC6336400 ^ uint32(idx+1)<<8 ^ uint32(k)) // 198.51.100.0 varied
+		}
+		if k%2 == 0 || k%5 == 3 {
+			d.Ipv6Addr = []byte{0x20, 0x01, 0x0d, 0xb8, byte((idx + 1) >> 8), byte(idx + 1), 0, 0, 0, 0, 0, 0, byte(k >> 16), byte(k >> 8), byte(k), 1}
 		}
 		out = append(out, d)
 	}
@@ -283,6 +293,20 @@ type c20Obs struct {
 	StrayBytes int64    `json:"stray_bytes"`     //
 	Others     []string `json:"others,omitempty"` // unexpected other directory entries
 	Harness    string   `json:"harness,omitempty"`
+
+	// after a failed SetClientConf: every read accessor of the live singleton compared with the same
+	// accessor of a fresh singleton loaded from the configuration GetClientConfPtr shows
+	GettersChecked int      `json:"getters_checked,omitempty"`
+	GettersDiffer  []string `json:"getters_differ,omitempty"`
+	GettersNotes   []string `json:"getters_notes,omitempty"`
+	GettersSkipped string   `json:"getters_skipped,omitempty"`
+
+	// after a failed or faulted store, fault lifted: the directory loaded the way a restarting client
+	// loads it (fresh singleton + AssetsSetDir)
+	Reload     bool   `json:"reload,omitempty"`
+	ReloadErr  string `json:"reload_err,omitempty"`
+	ReloadMem  string `json:"reload_mem,omitempty"`  // <blob>: what the fresh singleton has in effect
+	ReloadDisk string `json:"reload_disk,omitempty"` // the file after that load (as Disk)
 }
 
 // TestVerifHelper_C20_child is not a check: it is the body of the re-executed child process.
@@ -391,6 +415,9 @@ func c20ChildMain() {
 				where = gone
 			}
 			c20Observe(&o, a, where, obsDir)
+			if op.Kind == "conf" && serr != nil {
+				c20ObserveGetters(&o, a, filepath.Join(obsDir, "ref"+strconv.Itoa(i)), args[i].(*pb.ClientConf).GetDecoyList().GetTlsDecoys())
+			}
 		}
 		// ---- revert
 		switch op.Fault {
@@ -406,6 +433,22 @@ func c20ChildMain() {
 					o.Harness += " un-aside: " + err.Error()
 				}
 			} // else: the store replaced the directory; leave what it wrote
+		}
+		if obsDir != "" && (serr != nil || op.Fault != "") && strings.TrimSpace(o.Harness) == "" {
+			// restart: what does a client that starts now find and leave behind?
+			o.Reload = true
+			fresh, lerr := c20Fresh(dir)
+			if lerr != nil {
+				o.ReloadErr = lerr.Error()
+			}
+			if fresh != nil {
+				if mb, err := c20Partial.Marshal(fresh.GetClientConfPtr()); err == nil {
+					o.ReloadMem = c20Blob(obsDir, mb)
+				} else {
+					o.Harness += " snapshot after reload: " + err.Error()
+				}
+			}
+			o.ReloadDisk = c20DiskState(filepath.Join(dir, c20File), obsDir)
 		}
 		jb, _ := json.Marshal(o)
 		say("D " + strconv.Itoa(i) + " " + string(jb))
@@ -426,24 +469,26 @@ func c20Blob(obsDir string, b []byte) string {
 	return name
 }
 
-func c20Observe(o *c20Obs, a *assets, where, obsDir string) {
-	p := filepath.Join(where, c20File)
+// c20DiskState describes the entry at p: absent | dir | f:<blob> | err:<text>.
+func c20DiskState(p, obsDir string) string {
 	fi, err := os.Lstat(p)
 	switch {
 	case err != nil && os.IsNotExist(err):
-		o.Disk = "absent"
+		return "absent"
 	case err != nil:
-		o.Disk = "err:" + err.Error()
+		return "err:" + err.Error()
 	case fi.IsDir():
-		o.Disk = "dir"
-	default:
-		b, err := os.ReadFile(p)
-		if err != nil {
-			o.Disk = "err:" + err.Error()
-		} else {
-			o.Disk = "f:" + c20Blob(obsDir, b)
-		}
+		return "dir"
 	}
+	b, err := os.ReadFile(p)
+	if err != nil {
+		return "err:" + err.Error()
+	}
+	return "f:" + c20Blob(obsDir, b)
+}
+
+func c20Observe(o *c20Obs, a *assets, where, obsDir string) {
+	o.Disk = c20DiskState(filepath.Join(where, c20File), obsDir)
 	mb, err := c20Partial.Marshal(a.GetClientConfPtr())
 	if err != nil {
 		o.Harness += " snapshot of in-memory configuration: " + err.Error()
@@ -491,6 +536,7 @@ type c20Result struct {
 	watchdog   bool
 	dir        string
 	obsDir     string
+	xdev       bool // the child ran with TMPDIR on another file system than dir
 }
 
 // c20Exec seeds a fresh directory under base, runs the child on c and returns what it announced.
@@ -525,6 +571,15 @@ func c20Exec(c c20Case, base string, observe bool) (*c20Result, error) {
 	cmd := exec.Command(exe, "-test.run=^TestVerifHelper_C20_child$", "-test.count=1", "-test.timeout=600s")
 	cmd.Dir = base
 	cmd.Env = append(os.Environ(), c20EnvCase+"="+casePath, c20EnvDir+"="+res.dir, c20EnvObs+"="+res.obsDir)
+	if c.XDev {
+		if other := c20OtherFS(res.dir); other != "" {
+			if tmp, err := os.MkdirTemp(other, "verif-c20-tmp"); err == nil {
+				defer os.RemoveAll(tmp)
+				cmd.Env = append(cmd.Env, "TMPDIR="+tmp)
+				res.xdev = true
+			}
+		}
+	}
 	var out bytes.Buffer
 	cmd.Stdout, cmd.Stderr = &out, &out
 	r, w, err := os.Pipe()
@@ -627,4 +682,221 @@ func c20MultiMB(ms ...*pb.ClientConf) bool {
 		}
 	}
 	return false
+}
+
+// ---- other file system, fresh singleton, accessor comparison ---------------------------------------
+
+// c20OtherFS returns a writable directory on another file system than dir ("" if there is none).
+func c20OtherFS(dir string) string {
+	var here syscall.Stat_t
+	if syscall.Stat(dir, &here) != nil {
+		return ""
+	}
+	cwd, _ := os.Getwd()
+	for _, cand := range []string{os.Getenv("VERIF_C20_XDEV_DIR"), "/dev/shm", "/run/shm", "/run", "/var/tmp", "/tmp", cwd} {
+		if cand == "" {
+			continue
+		}
+		var st syscall.Stat_t
+		if syscall.Stat(cand, &st) != nil || st.Mode&syscall.S_IFMT != syscall.S_IFDIR || st.Dev == here.Dev {
+			continue
+		}
+		probe, err := os.MkdirTemp(cand, "verif-c20-probe")
+		if err != nil {
+			continue
+		}
+		os.Remove(probe)
+		return cand
+	}
+	return ""
+}
+
+// c20Fresh loads dir into a brand-new singleton exactly as a starting client does (initAssets through
+// AssetsSetDir) and puts the process's own singleton back afterwards.
+func c20Fresh(dir string) (*assets, error) {
+	saved := assetsInstance
+	assetsInstance = nil
+	assetsOnce = sync.Once{}
+	a, err := AssetsSetDir(dir)
+	assetsInstance = saved
+	if saved == nil {
+		assetsOnce = sync.Once{}
+	}
+	return a, err
+}
+
+var (
+	// picked at random by the library: judged by membership, not by value
+	c20RandomGetters = map[string]bool{"GetDecoy": true, "GetV6Decoy": true, "GetDecoyAddress": true}
+	// differs between the live and the reference singleton by construction
+	c20SkipGetters = map[string]bool{"GetAssetsDir": true}
+	c20ListedGetters = map[string]bool{"GetAllDecoys": true, "GetV4Decoys": true, "GetV6Decoys": true, "GetPubkey": true,
+		"GetConjurePubkey": true, "GetGeneration": true, "GetPhantomSubnets": true, "GetDNSRegConf": true, "GetClientConfPtr": true}
+	c20Canonical = proto.MarshalOptions{AllowPartial: true, Deterministic: true}
+)
+
+// c20Canon renders any accessor result as a comparable string.
+func c20Canon(v reflect.Value) string {
+	if !v.IsValid() {
+		return "invalid"
+	}
+	switch v.Kind() {
+	case reflect.Ptr, reflect.Interface, reflect.Map:
+		if v.IsNil() {
+			return "nil"
+		}
+	}
+	if v.CanInterface() {
+		if m, ok := v.Interface().(proto.Message); ok {
+			b, err := c20Canonical.Marshal(m)
+			if err != nil {
+				return "unmarshalable:" + err.Error()
+			}
+			h := sha256.Sum256(b)
+			return fmt.Sprintf("pb(%d):%x", len(b), h[:10])
+		}
+	}
+	switch v.Kind() {
+	case reflect.Ptr, reflect.Interface:
+		return c20Canon(v.Elem())
+	case reflect.Slice, reflect.Array:
+		if v.Type().Elem().Kind() == reflect.Uint8 {
+			b := make([]byte, v.Len())
+			for i := range b {
+				b[i] = byte(v.Index(i).Uint())
+			}
+			return "bytes:" + hex.EncodeToString(b)
+		}
+		h := sha256.New()
+		for i := 0; i < v.Len(); i++ {
+			h.Write([]byte(c20Canon(v.Index(i))))
+			h.Write([]byte{0})
+		}
+		return fmt.Sprintf("list(%d):%x", v.Len(), h.Sum(nil)[:10])
+	}
+	return fmt.Sprintf("%v", v.Interface())
+}
+
+func c20CanonMsg(m proto.Message) string { return c20Canon(reflect.ValueOf(m)) }
+
+func c20DecoyAddr(d *pb.TLSDecoySpec) string {
+	ip := d.GetIpv4Addr()
+	return fmt.Sprintf("%s|%d.%d.%d.%d:443", d.GetHostname(), byte(ip>>24), byte(ip>>16), byte(ip>>8), byte(ip))
+}
+
+// c20CompareGetters calls every read accessor of live and of ref and returns the names of those whose
+// results differ. Accessors are enumerated by reflection (every exported Get* method); the ones that
+// pick at random are sampled and judged by membership in what ref offers; IsDecoyInList is probed.
+func c20CompareGetters(live, ref *assets, probes []*pb.TLSDecoySpec) (differ []string, checked int, notes []string) {
+	lv, rv := reflect.ValueOf(live), reflect.ValueOf(ref)
+	for m := 0; m < lv.NumMethod(); m++ {
+		name := lv.Type().Method(m).Name
+		if !strings.HasPrefix(name, "Get") || c20SkipGetters[name] || c20RandomGetters[name] {
+			continue
+		}
+		mt := lv.Method(m).Type()
+		if mt.NumIn() != 0 || mt.NumOut() != 1 {
+			notes = append(notes, "not judged (signature): "+name)
+			continue
+		}
+		calls := 1
+		if !c20ListedGetters[name] {
+			calls = 6 // an accessor this harness does not know: judged only if it is deterministic
+			notes = append(notes, "accessor unknown to the harness, judged generically: "+name)
+		}
+		stable := true
+		var l0, r0 string
+		for k := 0; k < calls; k++ {
+			l := c20Canon(lv.Method(m).Call(nil)[0])
+			r := c20Canon(rv.Method(m).Call(nil)[0])
+			if k == 0 {
+				l0, r0 = l, r
+			} else if l != l0 || r != r0 {
+				stable = false
+			}
+		}
+		if !stable {
+			notes = append(notes, "not judged (not deterministic): "+name)
+			continue
+		}
+		checked++
+		if l0 != r0 {
+			differ = append(differ, fmt.Sprintf("%s (live %s, reference %s)", name, l0, r0))
+		}
+	}
+	// the random pickers
+	empty := c20CanonMsg(&pb.TLSDecoySpec{})
+	all, v6, addrs := map[string]bool{}, map[string]bool{}, map[string]bool{}
+	for _, d := range ref.GetAllDecoys() {
+		all[c20CanonMsg(d)] = true
+		addrs[c20DecoyAddr(d)] = true
+	}
+	for _, d := range ref.GetV6Decoys() {
+		v6[c20CanonMsg(d)] = true
+	}
+	if len(all) == 0 {
+		all[empty] = true
+		addrs["|"] = true
+	}
+	if len(v6) == 0 {
+		v6[empty] = true
+	}
+	bad := map[string]string{}
+	for k := 0; k < 12; k++ {
+		if d := live.GetDecoy(); !all[c20CanonMsg(d)] {
+			bad["GetDecoy"] = fmt.Sprintf("returned %q, which the reference does not hold", d.GetHostname())
+		}
+		if d := live.GetV6Decoy(); !v6[c20CanonMsg(d)] {
+			bad["GetV6Decoy"] = fmt.Sprintf("returned %q, which is not among the reference's IPv6 decoys", d.GetHostname())
+		}
+		sni, addr := live.GetDecoyAddress()
+		if !addrs[sni+"|"+addr] {
+			bad["GetDecoyAddress"] = fmt.Sprintf("returned (%q, %q), which the reference does not hold", sni, addr)
+		}
+	}
+	checked += 3
+	// membership probes: decoys the reference holds, and decoys of the rejected replacement
+	ps := append([]*pb.TLSDecoySpec{}, probes[:min(4, len(probes))]...)
+	ra := ref.GetAllDecoys()
+	ps = append(ps, ra[:min(4, len(ra))]...)
+	for _, d := range ps {
+		if l, r := live.IsDecoyInList(d), ref.IsDecoyInList(d); l != r {
+			bad["IsDecoyInList"] = fmt.Sprintf("(%q) = %v, reference %v", d.GetHostname(), l, r)
+		}
+	}
+	checked++
+	names := make([]string, 0, len(bad))
+	for n := range bad {
+		names = append(names, n)
+	}
+	sort.Strings(names)
+	for _, n := range names {
+		differ = append(differ, n+" "+bad[n])
+	}
+	return
+}
+
+// c20ObserveGetters builds the reference singleton from the configuration GetClientConfPtr shows and
+// records which accessors of the live singleton disagree with it.
+func c20ObserveGetters(o *c20Obs, live *assets, refDir string, probes []*pb.TLSDecoySpec) {
+	mb, err := proto.Marshal(live.GetClientConfPtr())
+	if err != nil {
+		o.GettersSkipped = "the in-memory configuration cannot be serialised: " + err.Error()
+		return
+	}
+	if err := os.MkdirAll(refDir, 0o755); err != nil {
+		o.Harness += " reference dir: " + err.Error()
+		return
+	}
+	defer os.RemoveAll(refDir)
+	if err := os.WriteFile(filepath.Join(refDir, c20File), mb, 0o644); err != nil {
+		o.Harness += " reference file: " + err.Error()
+		return
+	}
+	ref, err := c20Fresh(refDir)
+	if err != nil || ref == nil {
+		o.Harness += fmt.Sprintf(" reference singleton: %v", err)
+		return
+	}
+	o.GettersDiffer, o.GettersChecked, o.GettersNotes = c20CompareGetters(live, ref, probes)
 }
